@@ -83,7 +83,7 @@ class C18(Prop):
                   "total and never leave their own error class - in particular int() cannot fail after the "
                   "isdecimal() test; parse_peal_speed of a rendered 'XhYY'/'NNN' value gives 60X+YY; valid_pn implies "
                   "convert_pn succeeds; every accepted place notation / call definition builds a generator; a start "
-                  "row is accepted iff it is a permutation of 1..max. correspondence: every string up to a length "
+                  "row is accepted iff it is a permutation of 1..max. values: accepted start rows are exactly the rearrangements of 1..k (startRow_accepts_iff); the five documented peal-speed forms give the minutes they say for all numbers (pealSpeed_value). correspondence: every string up to a length "
                   "bound over each parser's alphabet (with a non-ASCII decimal digit, a numeric non-decimal "
                   "character, lower-case bell symbols), grammar-directed and random longer strings; oracle: result is "
                   "a value or the option's own error class, accepted notation/calls/rows can be rung. "
